@@ -1107,6 +1107,7 @@ class ReadParquetPyarrowFS(ReadParquet):
             self.arrow_to_pandas,
             self.kwargs.get("dtype_backend"),
             self.pyarrow_strings_enabled,
+            self.columns[0] if self._series else None,
         )
 
     @staticmethod
@@ -1143,7 +1144,12 @@ class ReadParquetPyarrowFS(ReadParquet):
 
     @staticmethod
     def _table_to_pandas(
-        table, index_name, arrow_to_pandas, dtype_backend, pyarrow_strings_enabled
+        table,
+        index_name,
+        arrow_to_pandas,
+        dtype_backend,
+        pyarrow_strings_enabled,
+        series_name=None,
     ):
         if arrow_to_pandas is None:
             arrow_to_pandas = {}
@@ -1166,6 +1172,9 @@ class ReadParquetPyarrowFS(ReadParquet):
             df = df.set_index(index_name)
             if index_name == NONE_LABEL:
                 df.index.name = None
+        if series_name is not None:
+            # ``columns="a"``: the collection is a Series
+            return df[series_name]
         return df
 
 
